@@ -13,7 +13,7 @@ import (
 
 func init() {
 	register("C12", propMeta{
-		Explanation: "Decides the structure store creation/removal relies on: (R1) common.NewBtree logs the createStore step before StoreRepository.Add, marks the backend as created (created=true) only on the success edge of that Add, and every other construction passes false; the live rollback removes exactly the backends marked created, under committedState >= createStore; (R2) remove-only-what-you-created: every StoreRepository.Remove call in package common is one of the three justified sites - the live rollback (guarded by the created flag), the replay of a dead transaction's createStore log record, and NewBtree's cleanup after a failed Add, which must be conditioned on a re-read of the store showing that nothing readable exists or that the store found carries this transaction's pre-assigned root node id (never unconditional: the Add also fails when a concurrent creator won); (R3) in fs.StoreRepository.Add and Remove the whole read-modify-write of the store list (GetAll, the duplicate-name test, the list write) happens after the store-list lock was acquired and the lock is released by a deferred Unlock; Add rejects a name already in the list before writing anything; (R4) removing a store reaches the recursive folder removal and drops the name from the list: infs.RemoveBtree reaches fs.StoreRepository.Remove, which calls removeStore for every name, evicts the cached StoreInfo and rewrites the list. R1 also requires that nothing but committedState comparisons, the created flag and the loop over the backends gates the removal of created stores in the live rollback.",
+		Explanation:  "Decides the structure store creation/removal relies on: (R1) common.NewBtree logs the createStore step before StoreRepository.Add, marks the backend as created (created=true) only on the success edge of that Add, and every other construction passes false; the live rollback removes exactly the backends marked created, under committedState >= createStore; (R2) remove-only-what-you-created: every StoreRepository.Remove call in package common is one of the three justified sites - the live rollback (guarded by the created flag), the replay of a dead transaction's createStore log record, and NewBtree's cleanup after a failed Add, which must be conditioned on a re-read of the store showing that nothing readable exists or that the store found carries this transaction's pre-assigned root node id (never unconditional: the Add also fails when a concurrent creator won); (R3) in fs.StoreRepository.Add and Remove the whole read-modify-write of the store list (GetAll, the duplicate-name test, the list write) happens after the store-list lock was acquired and the lock is released by a deferred Unlock; Add rejects a name already in the list before writing anything; (R4) removing a store reaches the recursive folder removal and drops the name from the list: infs.RemoveBtree reaches fs.StoreRepository.Remove, which calls removeStore for every name, evicts the cached StoreInfo and rewrites the list. R1 also requires that nothing but committedState comparisons, the created flag and the loop over the backends gates the removal of created stores in the live rollback.",
 		DoesNotCover: "That a recreated store starts empty with the new options (runtime contents), concurrent creation across processes with a failing lock service, and the Cassandra StoreRepository sibling are not decided.",
 	}, runC12)
 }
@@ -315,7 +315,9 @@ func runC12(c *Ctx) {
 					}
 				}
 				// every write is preceded by the duplicate test loop... the loop may run zero times only for no stores
-				if len(g.MustPrecede(func(n *GNode) bool { return n == lookupNode || (n.RangeHead != nil && enclosingRangeHead(g, lookupNode) == n) }, calls("fs.fileIO.write"))) != 0 {
+				if len(g.MustPrecede(func(n *GNode) bool {
+					return n == lookupNode || (n.RangeHead != nil && enclosingRangeHead(g, lookupNode) == n)
+				}, calls("fs.fileIO.write"))) != 0 {
 					ok = false
 				}
 			}
